@@ -79,10 +79,14 @@ func zzCancelStub(c *jsonrpc2.Connection, id jsonrpc2.ID) {
 	zzCR.events = append(zzCR.events, "cancel")
 	zzCR.cancels = append(zzCR.cancels, id)
 }
+// Closing the connection may report an error (the transport's closer failed, e.g. an event store that could not
+// release the session): the session is closed all the same.
+var zzCloseErr error
+
 func zzCloseStub(c *jsonrpc2.Connection) error {
 	zzCR.events = append(zzCR.events, "close")
 	zzCR.closes++
-	return nil
+	return zzCloseErr
 }
 
 func zzCheckCancelNotice(n zzNotifyRec, caller context.Context) {
@@ -231,9 +235,13 @@ func zzC05SessionClose() {
 	nl := vChoice("listens", 3)
 	ids := []jsonrpc2.ID{jsonrpc2.Int64ID(5), jsonrpc2.StringID("L")}
 	ss.listenIDs = append([]jsonrpc2.ID(nil), ids[:nl]...)
+	zzCloseErr = nil
+	if vBool("closerFails") {
+		zzCloseErr = errors.New("event store: session could not be released")
+	}
 	err := ss.Close()
-	vAssert(err == nil && rec.closes == 1, "C05.close-closes-the-connection")
-	vAssert(onClose == 1, "C05.onClose-runs")
+	vAssert(err == zzCloseErr && rec.closes == 1, "C05.close-closes-the-connection")
+	vAssert(onClose == 1, "C05.onClose-runs") // also C11: onClose is what makes the HTTP handler forget the session id
 	vAssert(ss.keepaliveCancel == nil || kaCancelled == 1, "C05.close-stops-keepalive")
 	vAssert(len(rec.cancels) == nl, "C05.close-cancels-parked-listen-handlers")
 	for i := 0; i < nl; i++ {
@@ -315,8 +323,12 @@ func zzC05ClientClose() {
 			cs.resourceSubs[uris[i]] = func() { subCancelled[i]++; rec.events = append(rec.events, "sub-cancel") }
 		}
 	}
+	zzCloseErr = nil
+	if vBool("closerFails") {
+		zzCloseErr = errors.New("DELETE failed")
+	}
 	err := cs.Close()
-	vAssert(err == nil && rec.closes == 1, "C05.client.close-closes-the-connection")
+	vAssert(err == zzCloseErr && rec.closes == 1, "C05.client.close-closes-the-connection")
 	vAssert(onClose == 1, "C05.client.onClose-runs")
 	vAssert(!hasKA || kaCancelled == 1, "C13.client.close-stops-keepalive")
 	vAssert(!hasListen || listenCancelled == 1, "C05.client.close-ends-the-listen-stream")
